@@ -81,6 +81,11 @@ def build(rng, mask, i, hostile_mode=False, use_alias=False):
         exp["omit_instanceID"] = True
     if i % 13 == 0:
         s["instance_id"] = "uid"
+    if i % 9 in (4, 7) and "form_id" in s:
+        # both spellings of the id, in either column order: form_id is the one that counts (pyxform warns), whatever the order
+        other = f"idstring_marker_{i}"
+        s = dict([("id_string", other)] + list(s.items())) if i % 9 == 4 else dict(list(s.items()) + [("id_string", other)])
+        exp["both_ids"] = True
     f.settings = s
     if i % 5 == 3:
         # an entity declaration adds its own namespace to whatever the namespaces setting declares - it must not displace any of them
